@@ -100,6 +100,17 @@ func (s *Sim) judgeCleanPass(cs *cleanSnap, after map[string]treeEntry, minAge t
 			if c := cs.cmps[rel]; c != nil {
 				hash = c.Hash
 			}
+			if ext == ".cmp" {
+				// the record of a file that was validated and held before the pass
+				// and is still held after it: start-up recovery finds held files
+				// through their companions, so the cleaner has just orphaned it
+				_, heldBefore := cs.tree[rel+".wait"]
+				_, heldAfter := after[rel+".wait"]
+				if heldBefore && heldAfter && !s.relDelivered(n, rel, hash) {
+					s.violate("C20", "cleaned-companion-of-held-file", "%s removed %s, the record of a validated file (version %s) that is still held for its predecessor and has not been delivered", cs.what, k, short(hash))
+					continue
+				}
+			}
 			if _, ok := after[rel+".full"]; ok {
 				continue
 			}
@@ -165,7 +176,18 @@ func init() {
 			if g.pct(30) {
 				name = fmt.Sprintf("f%d.dat", i)
 			}
-			switch g.n(6) {
+			switch g.n(7) {
+			case 6: // held file, plus a request for a NEW version of it that died right after the descriptors
+				s0, s1, s2 := sz(), sz(), sz()
+				pname := "q-" + strings.ReplaceAll(name, "/", "-")
+				fp := add(PeerFile{Name: pname, Size: s0, Seed: g.u64(), TimeS: 950})
+				fi := add(PeerFile{Name: name, Size: s1, Seed: g.u64(), TimeS: 900, Prev: pname})
+				f2 := add(PeerFile{Name: name, Size: s2, Seed: g.u64(), TimeS: 200, Prev: pname})
+				data(fp, 0, s0/2)
+				data(fi, 0, s1)
+				sc.Peer = append(sc.Peer, PeerOp{Kind: "settle", Sync: true}) // validated and held
+				sc.Peer = append(sc.Peer, PeerOp{Kind: "data", Source: "src1", Parts: []PeerPart{{f2, 0, s2}}, Truncate: -1 - g.n(3), Sync: true})
+				finishLater = append(finishLater, [3]int64{int64(fp), s0 / 2, s0})
 			case 0: // plain partial of an undelivered file
 				s0 := sz()
 				fi := add(PeerFile{Name: name, Size: s0, Seed: g.u64(), TimeS: 900})
